@@ -157,20 +157,21 @@ func LoadEngine(pkgPatterns []string) (*Engine, error) {
 // ---- harness run configuration ----
 
 type HarnessRun struct {
-	Name          string         `json:"name"`
-	Pkg           string         `json:"pkg"`
-	Func          string         `json:"func"`
-	Params        map[string]int `json:"params"`
-	Arith         bool           `json:"arith"`
-	ConcretizeCap int            `json:"concretize_cap"`
-	StepBudget    int            `json:"step_budget"`
-	MaxPaths      int            `json:"max_paths"`
-	TimeoutS      int            `json:"timeout_s"`
-	Solver        string         `json:"solver"`
-	Portfolio     []string       `json:"portfolio"`
-	QueryTimeoutMs int           `json:"query_timeout_ms"`
-	Workers       int            `json:"workers"`
-	Reach         []string       `json:"reach"`
+	Name           string         `json:"name"`
+	Pkg            string         `json:"pkg"`
+	Func           string         `json:"func"`
+	Params         map[string]int `json:"params"`
+	Arith          bool           `json:"arith"`
+	ConcretizeCap  int            `json:"concretize_cap"`
+	StepBudget     int            `json:"step_budget"`
+	MaxPaths       int            `json:"max_paths"`
+	TimeoutS       int            `json:"timeout_s"`
+	Solver         string         `json:"solver"`
+	Portfolio      []string       `json:"portfolio"`
+	QueryTimeoutMs int            `json:"query_timeout_ms"`
+	IncTimeoutMs   int            `json:"inc_timeout_ms"`
+	Workers        int            `json:"workers"`
+	Reach          []string       `json:"reach"`
 }
 
 type Stats struct {
@@ -180,6 +181,7 @@ type Stats struct {
 	FeasQueries   int
 	UnknownFeas   int
 	FactPruned    int
+	FreshQueries  int
 	AssertConst   int
 	AssertUnsat   int
 	Obligations   int
@@ -203,10 +205,10 @@ func newStats() *Stats {
 	return &Stats{PathEnds: map[string]int{}, Asserts: map[string]int{}, Reached: map[string]int{}, Choices: map[string]int{}, NotEst: map[string]int{}, KnownHits: map[string]int{}}
 }
 
-func (s *Stats) noteAssert(id string)        { s.Asserts[id]++ }
-func (s *Stats) noteReach(id string)         { s.Reached[id]++ }
-func (s *Stats) noteChoice(n string, k int)  { s.Choices[n] = k }
-func (s *Stats) notEstablished(why string)   { s.NotEst[why]++ }
+func (s *Stats) noteAssert(id string)       { s.Asserts[id]++ }
+func (s *Stats) noteReach(id string)        { s.Reached[id]++ }
+func (s *Stats) noteChoice(n string, k int) { s.Choices[n] = k }
+func (s *Stats) notEstablished(why string)  { s.NotEst[why]++ }
 
 func (s *Stats) merge(o *Stats) {
 	s.Paths += o.Paths
@@ -214,6 +216,7 @@ func (s *Stats) merge(o *Stats) {
 	s.FeasQueries += o.FeasQueries
 	s.UnknownFeas += o.UnknownFeas
 	s.FactPruned += o.FactPruned
+	s.FreshQueries += o.FreshQueries
 	s.AssertConst += o.AssertConst
 	s.AssertUnsat += o.AssertUnsat
 	s.Obligations += o.Obligations
@@ -271,6 +274,7 @@ type Worker struct {
 	id          int
 	ctx         *TermCtx
 	solver      *Solver
+	fresh       *Solver
 	aux         []*Solver
 	baseGlobals map[*ssa.Global]*Object
 	rs          *runState
@@ -305,6 +309,11 @@ func (w *Worker) decide(e *Exec, q *Term) Result {
 	used := w.solver
 	w.solver.Declare(e.inputs)
 	r := w.solver.Check(conds)
+	if r == Unknown && w.fresh != nil {
+		w.fresh.Declare(e.inputs)
+		r = w.fresh.Check(conds)
+		used = w.fresh
+	}
 	if r == Unknown {
 		for _, s := range w.aux {
 			s.Declare(e.inputs)
@@ -364,7 +373,6 @@ func (w *Worker) initHeap() error {
 	w.baseGlobals = e.globals
 	return ierr
 }
-
 
 func (w *Worker) runPath(prefix []Dec) {
 	h := w.h
@@ -486,6 +494,9 @@ func (w *Worker) resetCtx() {
 	for _, s := range w.aux {
 		s.Restart()
 	}
+	if w.fresh != nil {
+		w.fresh.Restart()
+	}
 	w.initHeap()
 }
 
@@ -523,6 +534,9 @@ func RunHarness(g *Engine, h *HarnessRun) (*HarnessResult, error) {
 	if h.QueryTimeoutMs == 0 {
 		h.QueryTimeoutMs = 30000
 	}
+	if h.IncTimeoutMs == 0 {
+		h.IncTimeoutMs = 1500
+	}
 	nw := h.Workers
 	if nw == 0 {
 		nw = 16
@@ -541,7 +555,11 @@ func RunHarness(g *Engine, h *HarnessRun) (*HarnessResult, error) {
 		swg.Add(1)
 		go func(i int) {
 			defer swg.Done()
-			s, err := NewSolver(h.Solver, h.QueryTimeoutMs)
+			incT := h.QueryTimeoutMs
+			if h.IncTimeoutMs > 0 && h.IncTimeoutMs < incT {
+				incT = h.IncTimeoutMs
+			}
+			s, err := NewSolver(h.Solver, incT)
 			if err != nil {
 				smu.Lock()
 				startErr = err
@@ -549,6 +567,10 @@ func RunHarness(g *Engine, h *HarnessRun) (*HarnessResult, error) {
 				return
 			}
 			w := &Worker{eng: g, id: i, ctx: NewTermCtx(), solver: s, rs: rs, stats: newStats(), fnSeen: map[*ssa.Function]bool{}, h: h}
+			if fs, err := NewSolver("z3-new", h.QueryTimeoutMs); err == nil {
+				fs.fresh = true
+				w.fresh = fs
+			}
 			for _, an := range h.Portfolio {
 				if a, err := NewSolver(an, h.QueryTimeoutMs); err == nil {
 					w.aux = append(w.aux, a)
@@ -575,6 +597,13 @@ func RunHarness(g *Engine, h *HarnessRun) (*HarnessResult, error) {
 	for _, w := range workers {
 		w.stats.SolverTime = w.solver.Time
 		w.stats.SolverQueries = w.solver.Queries
+		if w.fresh != nil {
+			w.stats.SolverTime += w.fresh.Time
+			w.stats.SolverQueries += w.fresh.Queries
+			w.stats.FreshQueries += w.fresh.Queries
+			res.SolverErrs = append(res.SolverErrs, w.fresh.errors...)
+			w.fresh.Close()
+		}
 		for _, a := range w.aux {
 			w.stats.SolverTime += a.Time
 			w.stats.SolverQueries += a.Queries
